@@ -7,22 +7,37 @@
 import PM.Structure2
 namespace PM
 
+/-- a closed fragment `C` may go in at the resolved position `rp`, as far as the helpers do not look: either `rp` is a
+    child boundary, or it is strictly inside a text child — then the helpers' test (`can_replace…(index, index, …)`, with
+    `index` the index of that text child) read "`C` in front of the text", while the insertion puts `C` between its two
+    halves: the parent must accept `text C text` there, i.e. `parent.can_replace(index + 1, index + 1, C ++ [that child])`
+    (true in every `text*` / `inline*` parent; false e.g. for content `image? text* image`), and the cut must not fall
+    between the two halves of a surrogate pair (`TextNode.cut` raises there) -/
+def insideTextGuardR (S : Schema) (rp : RPos) (C : List Node) : Bool :=
+  rp.textOffset == 0 ||
+    match rp.parent.kids[rp.index rp.depth]? with
+    | some (.text s m) =>
+      splitOk s rp.textOffset &&
+        S.nodeCanReplace rp.parent (rp.index rp.depth + 1) (rp.index rp.depth + 1) (C ++ [.text s m]) == some true
+    | _ => false
+
+def insideTextGuard (S : Schema) (doc : Node) (p : Nat) (C : List Node) : Bool :=
+  match doc.resolve p with
+  | some rp => insideTextGuardR S rp C
+  | none => true
+
 /-- `insert_point` tests `can_replace_with(index, index, type)` — the type only.  The insertion of a node `n` of that
     type at the returned position `p` also needs
-    * `p` not strictly inside a text child: there `index` is the index of that text child, the test reads "`n` in
-      front of the text", the insertion puts `n` between its two halves (`image? text* image`: approved, refused);
+    * `insideTextGuard` (above) when `p` is strictly inside a text child;
     * the marks of `n` allowed by the parent of `p` (`close` → `check_content`). -/
 def insertGuard (S : Schema) (doc : Node) (p : Nat) (n : Node) : Bool :=
   match doc.resolve p with
-  | some rp => rp.textOffset == 0 && (S.nodeType (S.tyOf rp.parent)).allowsMarks n.marks
+  | some rp => insideTextGuardR S rp [n] && (S.nodeType (S.tyOf rp.parent)).allowsMarks n.marks
   | none => true
 
 /-- `drop_point`'s first pass tests `can_replace(index, index, content)` (marks included): only the first point above
     remains -/
-def dropGuard (doc : Node) (p : Nat) : Bool :=
-  match doc.resolve p with
-  | some rp => rp.textOffset == 0
-  | none => true
+def dropGuard (S : Schema) (doc : Node) (p : Nat) (C : List Node) : Bool := insideTextGuard S doc p C
 
 /-- the answer of the first pass of `drop_point` ("the content fits as it is"); `some none` = the pass ran out (the
     second pass, which looks for a wrapping of the first node, may still answer) -/
@@ -33,5 +48,38 @@ def dropPointPass1 (S : Schema) (doc : Node) (pos : Nat) (sl : Slice) : Option (
     match dropContent sl.openStart sl.content with
     | none => none
     | some content => dropLoop S r content false (r.depth + 1)
+
+/-- `can_change_type(doc, pos, type)` tests `parent.can_replace_with(index, index + 1, type)` — whether the parent takes
+    a node of the new type in place of the node after `pos`.  `set_node_markup(pos, type, attrs, marks)` on a non-leaf node
+    also needs (a) the new type to accept the node's children (`type.valid_content(node.content)`: `set_node_markup` tests
+    it itself and raises `ValueError` — `can_change_type` does not look at it) and (b) the parent to allow the marks `ms`
+    of the new node (automatic when the node's own marks are kept). -/
+def changeTypeGuard (S : Schema) (doc : Node) (pos : Nat) (ty : TypeId) (ms : Marks) : Bool :=
+  match doc.resolve pos with
+  | some r =>
+    match r.parent.kids[r.index r.depth]? with
+    | some n => S.validContent ty n.kids && (S.nodeType (S.tyOf r.parent)).allowsMarks ms
+    | none => false
+  | none => true
+
+/-- the marks part of `insertGuard`: the parent of `p` allows the marks of `n` -/
+def marksAllowedAt (S : Schema) (doc : Node) (p : Nat) (n : Node) : Bool :=
+  match doc.resolve p with
+  | some rp => (S.nodeType (S.tyOf rp.parent)).allowsMarks n.marks
+  | none => true
+
+/-- `p` is a child boundary of the top node, and the top node is not a textblock (for `insertPoint_insert_marked_top`:
+    the Fitter's run is then evaluated exactly) -/
+def topBoundary (S : Schema) (doc : Node) (p : Nat) : Bool :=
+  match doc.resolve p with
+  | some rp => rp.depth == 0 && rp.textOffset == 0 && !S.isTextblock doc
+  | none => false
+
+/-- what the Fitter's `place_nodes` makes of a node put in at `p`: `node.mark(parent_type.allowed_marks(node.marks))` —
+    the marks the parent of `p` does not allow are dropped -/
+def strippedAt (S : Schema) (doc : Node) (p : Nat) (n : Node) : Node :=
+  match doc.resolve p with
+  | some rp => n.withMarks ((S.nodeType (S.tyOf rp.parent)).allowedMarks n.marks)
+  | none => n
 
 end PM
